@@ -76,15 +76,17 @@ def _dd_bundles(tier, seed, find, props, comps, widths_small, extra_fams=True, d
                 out.append(P(**b))
     # stale per-object state: an earlier, wider, solver-like compilation on the SAME object (symbolic costs) that merged but
     # is exact by its best path, so that its cut-set is never drained; then the narrow compilation under test
-    if "relaxed" in comps:
+    if True:
         stale = dict(n=5, b=3, d=2, setnext=1, nsym=6)
-        for s in find([], stale, 6 if tier == "quick" else 24, base + 1, dyn=dict(notes="hist_relaxed_exact_undrained,cutset_nonempty", dd="lel", width=1, roots=0, hist=1, hist_sym=1, hist_w=3, props="C06,C08", tries=10), count=4000):
+        stale_seeds = find([], stale, 6 if tier == "quick" else 24, base + 1, dyn=dict(notes="hist_relaxed_exact_undrained,cutset_nonempty", dd="lel", width=1, roots=0, hist=1, hist_sym=1, hist_w=3, props="C06,C08", tries=10), count=4000)
+        for k, s in enumerate(stale_seeds):
             for dd in dds:
-                i += 1
-                b = dict(kind="dd", dd=dd, comp="relaxed", seed=s, width="1,2", roots="0", rub="none", lb=("sym" if i % 2 else "none"), hist=1, hist_sym=1, hist_w=3, rev=0, props=props, **stale, **lim)
-                if more:
-                    b.update(more)
-                out.append(P(**b))
+                for comp in (comps if k % 2 == 0 else comps[:1]):
+                    i += 1
+                    b = dict(kind="dd", dd=dd, comp=comp, seed=s, width="1,2", roots="0", rub="none", lb=("sym" if i % 2 else "none"), hist=1, hist_sym=1, hist_w=3, rev=0, props=props, **stale, **lim)
+                    if more:
+                        b.update(more)
+                    out.append(P(**b))
     # probe-directed structures: a concrete pre-scan (random cost vectors, microseconds per run) looks for structures on
     # which SOME concrete probe already violates an obligation of this property; the symbolic engine then decides them
     # (nothing is found on a tree where the property holds; the scan only chooses WHERE the solver looks)
